@@ -24,6 +24,7 @@ type faultCase struct {
 	At    int    `json:"at"`              // byte offset (readers/short writes), call number (writers, driver)
 	With  int    `json:"with,omitempty"`  // bytes delivered together with the error (readers)
 	Chunk int    `json:"chunk,omitempty"` // read fragmentation: at most Chunk bytes per read (0 = everything)
+	Cuts  []int  `json:"cuts,omitempty"`  // read fragmentation: chunk boundaries before the fault
 	Short bool   `json:"short,omitempty"` // writer: short write at byte offset At instead of failing call number At
 	Site  string `json:"site,omitempty"`  // driver: prepare query next exec
 }
@@ -66,7 +67,8 @@ func csvFaultDocs() []string {
 }
 
 func jsonFaultDocs() []string {
-	return []string{`[{"a":1,"b":"x"}]`, `[{"a":1.5,"b":null},{"a":2,"b":"y"},{"a":3,"b":"z"}]`, `[]`, "[{\"a\":true}]\n"}
+	return []string{`[{"a":1,"b":"x"}]`, `[{"a":1.5,"b":null},{"a":2,"b":"y"},{"a":3,"b":"z"}]`, `[]`, "[{\"a\":true}]\n",
+		`[{"a":"}]"},{"a":"[{"}]`, " [ {\"a\" : 1 } ,\n {\"a\" : 2 } ] "}
 }
 
 func faultFrames() []qframe.QFrame {
@@ -103,7 +105,7 @@ func runFaultCase(c faultCase) *core.Failure {
 			docs = jsonFaultDocs()
 		}
 		doc := []byte(docs[c.Input])
-		rd := &schedReader{doc: doc, failAt: c.At, failWith: c.With, maxChunk: c.Chunk}
+		rd := &schedReader{doc: doc, failAt: c.At, failWith: c.With, maxChunk: c.Chunk, cuts: c.Cuts}
 		var q qframe.QFrame
 		if c.Entry == "ReadCSV" {
 			q = qframe.ReadCSV(rd)
@@ -111,7 +113,7 @@ func runFaultCase(c faultCase) *core.Failure {
 			q = qframe.ReadJSON(rd)
 		}
 		delivered := rd.deliveredFault()
-		what := fmt.Sprintf("%s(%q) with the reader failing at byte %d (%d bytes delivered with the error, chunk %d)", c.Entry, doc, c.At, c.With, c.Chunk)
+		what := fmt.Sprintf("%s(%q) with the reader failing at byte %d (%d bytes delivered with the error, chunk %d, cuts %v)", c.Entry, doc, c.At, c.With, c.Chunk, c.Cuts)
 		if delivered && q.Err == nil {
 			// A JSON document is self-delimiting: when the reader hands over the last bytes of the
 			// complete document together with the error, the decoder never has to read again and no
@@ -249,6 +251,20 @@ func c15Run(ctx *core.Ctx) {
 							exec(faultCase{Entry: entry, Input: di, At: at, With: with, Chunk: ch}, "reader-fault")
 						}
 					}
+					// one (thorough: two) fragmentation deviations before the fault: every cut position
+					for c1 := 1; c1 < at-with; c1++ {
+						if ctx.Mine() {
+							exec(faultCase{Entry: entry, Input: di, At: at, With: with, Cuts: []int{c1}}, "reader-fault+cut")
+						}
+						if ctx.Quick() || len(doc) > 30 {
+							continue
+						}
+						for c2 := c1 + 1; c2 < at-with; c2++ {
+							if ctx.Mine() {
+								exec(faultCase{Entry: entry, Input: di, At: at, With: with, Cuts: []int{c1, c2}}, "reader-fault+2cuts")
+							}
+						}
+					}
 				}
 			}
 		}
@@ -315,7 +331,7 @@ func init() {
 	core.Register(&core.Check{
 		ID:    "C15",
 		Level: "fault_enumeration",
-		Rule: "case = (entry point, input, fault position[, read fragmentation]). Readers: for each of 8 CSV and 4 JSON documents an io.Reader that fails at EVERY byte offset 0..L (L = error instead of EOF), returning 0, 1 or 2 bytes together with the error, under single-read and 1,2,3,5,7-byte fragmentation; " +
+		Rule: "case = (entry point, input, fault position[, read fragmentation]). Readers: for each of 8 CSV and 6 JSON documents an io.Reader that fails at EVERY byte offset 0..L (L = error instead of EOF), returning 0, 1 or 2 bytes together with the error, under single-read and 1,2,3,5,7-byte fragmentation and with every single cut (thorough: every pair of cuts) before the fault; " +
 			"writers: for each of 5 frames (one whose CSV exceeds encoding/csv's 4096-byte buffer) an io.Writer failing at EVERY Write call of the fault-free trace and a short write at every byte offset (every 37th/5th for the large output); " +
 			"driver: Prepare, Query, Rows.Next at every row incl. instead of EOF for 4 result sets, Exec at every statement for every frame. Oracle: if the injected fault was actually returned to the code under test, the call must report an error; an error-free result must equal the complete fault-free result; never a panic. All cases non-trivial (every one injects a fault); distinct by content.",
 		Assumptions: []string{
@@ -324,8 +340,8 @@ func init() {
 			"Commit is not exercised (qframe never calls it)",
 		},
 		Bound: map[string]string{
-			"quick":    "all positions; read fragmentation {single read, 1, 2, 3, 5, 7 bytes}; every 37th short-write offset on the large output",
-			"thorough": "same; every 5th short-write offset on the large output",
+			"quick":    "all positions; read fragmentation {single read, 1, 2, 3, 5, 7 bytes, every single cut}; every 37th short-write offset on the large output",
+			"thorough": "adds every pair of cuts before the fault (documents <= 30 bytes); every 5th short-write offset on the large output",
 		},
 		Run:    c15Run,
 		Replay: replayAs(runFaultCase),
